@@ -829,6 +829,8 @@ class Interp:
             ctx = LoopCtx(self, st, env, seq, i, entry)
             for nm, f in _inv_list(spec.inv):
                 st.assume(f(ctx))
+            if spec.havoc_hook is not None:
+                spec.havoc_hook(ctx)          # e.g. the instance at i of a recursive spec function's defining equation
             x = st.wf_read(seq.at(i))
             # the sequence existed at loop entry, so did its elements (the engine refuses loops that grow
             # the sequence they iterate: `seq` is the entry-time sequence value)
@@ -870,6 +872,8 @@ class Interp:
             ctx = LoopCtx(self, st, env, seq, i, entry)
             for nm, f in _inv_list(spec.inv):
                 st.assume(f(ctx))
+            if spec.havoc_hook is not None:
+                spec.havoc_hook(ctx)
             if z3.is_app(n):
                 pass
             self.exec_block(s.orelse, env)
